@@ -86,7 +86,7 @@ impl Layout {
                 (NodeKind::Cli { args }, vec![])
             }
         };
-        NodeSpec { kind, cwd: String::new(), env, hashseed: 0, faults: vec![], leak: 0, canary: false }
+        NodeSpec { kind, cwd: String::new(), env, hashseed: 0, faults: vec![], leak: 0, canary: false, clock: None, pid: None }
     }
 }
 
@@ -259,7 +259,7 @@ pub fn run(engine: &Engine, tier: &str, seed: u64) -> i32 {
     let t0 = Instant::now();
     let thorough = tier == "thorough";
     let pool = Pool::load();
-    let n = if thorough { 40_000u64 } else { 1_500 };
+    let n = if thorough { 20_000u64 } else { 1_500 };
     let ids: Vec<u64> = (0..n).collect();
     let outs: Vec<(Scenario, Outcome)> = engine.par_map(&ids, |ctx, i| {
         let sc = history(&pool, seed, *i);
